@@ -1,5 +1,7 @@
 import LyModel.Conc.LockLemmas
 import LyModel.Conc.DictLemmas
+import LyModel.Conc.ErrLemmas
+import LyModel.Conc.Lazy
 import LyModel.Generated.LockPaths
 import LyModel.Generated.Consts
 /-!
@@ -128,6 +130,116 @@ theorem dict_linearizable_needs_discipline :
     [(0, .atomic (.insert "a")), (1, .atomic (.remove "a"))]
     (.step _ 0 _ _ _ rfl (.step _ 1 _ _ _ rfl (.done _ (by decide)))) 1 _ rfl
   revert this
+  decide
+
+/-! ## (c) per-thread error records in a table whose record array moves -/
+
+/-- Error records of one thread are never observed by another — in every schedule of any number of threads, *as
+    long as no pointer into a replaced record array is dereferenced* (the run does not end in `stalePointer`):
+    whatever a thread reads through the pointer `ly_err_get_rec`/`ly_err_new_rec` gave it is its own record. -/
+theorem err_isolated_partial (sched : List (Nat × ErrStep)) (s : ErrState) (h : errRun errInit sched = .ok s) :
+    ∀ o ∈ s.obs, o.owner = o.thread :=
+  (errRun_inv (einv_init _ rfl) h).obsOk
+
+/-- The record array is first replaced by the insert of the `staleThreshold`-th record; the number comes from the
+    generated `LYHT_MIN_SIZE`, `LYHT_*_PERCENTAGE` and the `lyht_new(1, …, 1)` call in context.c. -/
+theorem stale_threshold_value : staleThreshold = 6 := by decide
+
+/-- With fewer than `staleThreshold` threads ever logging on the context no schedule whatsoever can go wrong. -/
+theorem err_safe_below_threshold (T : List Nat) (hT : T.length < staleThreshold) (sched : List (Nat × ErrStep))
+    (hs : ∀ x ∈ sched, x.1 ∈ T) : ∃ s, errRun errInit sched = .ok s ∧ ∀ o ∈ s.obs, o.owner = o.thread := by
+  obtain ⟨s, h, _⟩ := errRun_small hT sched hs (small_init T)
+  exact ⟨s, h, err_isolated_partial sched s h⟩
+
+def endsStale : Except ConcErr ErrState → Bool
+  | .error .stalePointer => true
+  | .ok _ => false
+
+/-- The schedule of F8, produced by the model for `staleThreshold` threads that each only call the logger and
+    `ly_err_last`: it is an interleaving of their programs and it ends in a dereference of a pointer into the freed
+    array.  `harness/wb_log.c` replays exactly this schedule on the code under ASan. -/
+theorem err_stale_schedule :
+    (stalePrograms staleThreshold).length = staleThreshold ∧
+    Interleaving (stalePrograms staleThreshold) (staleSchedule staleThreshold) ∧
+    endsStale (errRun errInit (staleSchedule staleThreshold)) = true := by
+  refine ⟨by decide, ?_, by decide⟩
+  rw [stale_threshold_value]
+  repeat (first | exact .done _ (by decide) | refine .step _ _ _ _ _ (by rfl) ?_)
+
+/-- Hence the full statement — every interleaving of threads that log and read their errors runs without touching
+    freed memory — is false (F8). -/
+theorem err_stale_pointer_fails :
+    ¬ ∀ (progs : List (List ErrStep)) (sched : List (Nat × ErrStep)), Interleaving progs sched →
+        ∃ s, errRun errInit sched = .ok s := by
+  intro h
+  obtain ⟨s, hs⟩ := h _ _ err_stale_schedule.2.1
+  have := err_stale_schedule.2.2
+  rw [hs] at this
+  cases this
+
+/-- non-vacuity of `err_isolated_partial`: five threads log and read back interleaved; each sees its own list. -/
+example : ∃ s, errRun errInit
+      [(0, .getRec), (1, .getRec), (0, .newRecIfNull), (1, .newRecIfNull), (1, .store 11), (0, .store 10),
+       (2, .getRec), (2, .newRecIfNull), (2, .store 12), (0, .getRec), (1, .getRec), (1, .read), (0, .read)] = .ok s ∧
+    s.obs = [⟨1, 1, [11]⟩, ⟨0, 0, [10]⟩] := ⟨_, rfl, by decide⟩
+
+/-! ## (d) lazily cached canonical strings -/
+
+/-- The print callbacks that fill `value->_canonical` on first use, none of them under a lock (finding F9): the list
+    is re-extracted on every run; a repair (fill under a lock, or at store time) changes it. -/
+theorem lazy_canon_sites :
+    lazyCanonSites.map (fun s => (s.2.1, s.2.2)) =
+      [("lyplg_type_print_binary", false), ("lyplg_type_print_bits", false), ("lyplg_type_print_date_and_time", false),
+       ("lyplg_type_print_ipv4_address", false), ("lyplg_type_print_ipv4_address_no_zone", false),
+       ("lyplg_type_print_ipv4_prefix", false), ("lyplg_type_print_ipv6_address", false),
+       ("lyplg_type_print_ipv6_address_no_zone", false), ("lyplg_type_print_ipv6_prefix", false)] := by decide
+
+/-- For a value whose canonical string is already cached, any number of readers in any schedule leave the
+    dictionary alone, all return the cached string, and freeing the value releases its one reference. -/
+theorem lazy_canon_partial (c : String) (r0 : Nat) (sched : List (Nat × LStep)) :
+    (lrun c (lazyInit (some c) r0) sched).refs = r0 ∧
+    (∀ o ∈ (lrun c (lazyInit (some c) r0) sched).out, o.2 = c) ∧
+    (lfree (lrun c (lazyInit (some c) r0) sched)).refs = r0 - 1 := by
+  obtain ⟨h1, h2, _, h4⟩ := lrun_filled c sched (lazyInit (some c) r0) rfl (fun _ => rfl)
+  refine ⟨h2, ?_, ?_⟩
+  · intro o ho
+    rcases h4 o ho with h | h
+    · cases h
+    · exact h
+  · simp only [lfree, h1, h2]; rfl
+
+/-- The same holds when one reader has completed before the others start (what a caller can do to be safe: print
+    or `lyd_get_value` every node once before sharing the tree): exactly one reference is taken and freed. -/
+theorem lazy_canon_serial (c : String) (r0 : Nat) (sched : List (Nat × LStep)) :
+    (lrun c (lazyInit none r0) (tagged 0 reader ++ sched)).refs = r0 + 1 ∧
+    (∀ o ∈ (lrun c (lazyInit none r0) (tagged 0 reader ++ sched)).out, o.2 = c) ∧
+    (lfree (lrun c (lazyInit none r0) (tagged 0 reader ++ sched))).refs = r0 := by
+  rw [lrun_append]
+  obtain ⟨h1, h2, _, h4⟩ := lrun_filled c sched (lrun c (lazyInit none r0) (tagged 0 reader)) rfl
+    (by intro t; simp [lrun, lstep, tagged, reader, lazyInit])
+  refine ⟨by rw [h2]; rfl, ?_, ?_⟩
+  · intro o ho
+    rcases h4 o ho with h | h
+    · simp [lrun, lstep, tagged, reader, lazyInit] at h
+      rw [h]
+    · exact h
+  · simp only [lfree, h1, h2]; rfl
+
+/-- Two readers of a shared, not yet cached value can both pass the check and both insert: the value ends up holding
+    one pointer while the dictionary counts two references, so freeing the value leaves a surplus reference (F9; at
+    the memory-model level the same schedule is the data race TSan reports).  The full statement — every interleaving
+    of readers leaves the dictionary as the serial run does — is false. -/
+theorem lazy_canon_race_fails :
+    ¬ ∀ (c : String) (r0 : Nat) (ts : List (List LStep)) (sched : List (Nat × LStep)),
+        (∀ t ∈ ts, t = reader) → Interleaving ts sched → (lfree (lrun c (lazyInit none r0) sched)).refs = r0 := by
+  intro h
+  have := h "x y" 0 [reader, reader] raceSchedule (by decide)
+    (by unfold raceSchedule
+        repeat (first | exact .done _ (by decide) | refine .step _ _ _ _ _ (by rfl) ?_))
+  revert this
+  decide
+
+example : (lrun "x y" (lazyInit none 0) raceSchedule).refs = 2 ∧ (lrun "x y" (lazyInit none 0) raceSchedule).canon = some "x y" := by
   decide
 
 end LyModel.Props.C16
